@@ -208,6 +208,14 @@ StepLive(s, c) ==
          [s |-> [s EXCEPT !.enc = IF c.pairs = <<>> THEN <<>> ELSE EncAddAll(s.enc, c.pairs)],
           ret |-> <<>>]
     [] c.op = "Free" -> [s |-> DeadState, ret |-> <<"nil">>]
+    [] c.op = "Marshal" ->
+         \* an initialised receiver gains the decoded Stack as ONE new element,
+         \* through Push (so capacity, no-nesting and a push policy apply)
+         [s |-> IF s.haspol
+                THEN LET r == PushPol(s.e, s.cap, s.acc, <<"S">>, <<>>) IN
+                     [s EXCEPT !.e = r.e, !.err = IF r.rej THEN "set" ELSE s.err]
+                ELSE [s EXCEPT !.e = PushAll(s.e, s.cap, "nnest" \in s.opts, <<"S">>)],
+          ret |-> <<"nil">>]
 
 Step(s, c) ==
   IF c.op = "SetOpt" THEN
@@ -227,8 +235,13 @@ Step(s, c) ==
        Keep(s, IF s.live THEN FrontRet(s.e, s.fifo) ELSE <<Nil, "false">>)
   ELSE IF c.op = "Back" THEN
        Keep(s, IF s.live THEN BackRet(s.e, s.fifo) ELSE <<Nil, "false">>)
+  ELSE IF c.op = "Marshal" /\ ~s.live THEN
+       \* Marshal on an uninitialised receiver initialises it: kind from the
+       \* label, no capacity, the remaining entries as elements
+       [s |-> [NewState(c.kind, 0) EXCEPT !.e = c.xs], ret |-> <<"nil">>]
   ELSE IF ~s.live THEN Keep(s, ZeroRet(c))
-  ELSE IF ReadOnly(s) THEN Keep(s, IF c.op = "Free" THEN <<"err">> ELSE ZeroRet(c))
+  ELSE IF ReadOnly(s) THEN Keep(s, IF c.op = "Free" THEN <<"err">>
+                                   ELSE IF c.op = "Marshal" THEN <<"nil">> ELSE ZeroRet(c))
   ELSE StepLive(s, c)
 
 (***************************************************************************)
